@@ -91,6 +91,8 @@ theorem applyRes_noIdle (cfg : Cfg) (pol : Policy) (step : Nat) (tickEv : Ev) (d
   | addCollected buf ev =>
     simp only [applyRes]
     split
+    · exact h
+    split
     · simp [List.any_append, h, isIdlePub]
     · exact h
   | deleteCollected buf => simp only [applyRes]; split <;> exact h
